@@ -73,7 +73,7 @@ inline std::string compare(const Map& m, const ref::RMap& r, bool withGroups = t
 
 // ---- reference maps from a dimension vector ----
 const int kDims = 12;
-inline const std::vector<int>& dimSizes() { static std::vector<int> d = { 6, 4, 3, 5, 4, 3, 7, 3, 3, 7, 3, 2 }; return d; }
+inline const std::vector<int>& dimSizes() { static std::vector<int> d = { 6, 4, 3, 5, 4, 3, 9, 3, 3, 7, 3, 2 }; return d; }
 inline const char* dimName(int d) { static const char* n[] = { "lgWidth", "height", "tileFill", "savedFlag", "tag", "clip", "sources", "mappings", "terrain", "groups", "undocumented", "trailing" }; return n[d]; }
 
 inline ref::RMap makeMap(const std::vector<int>& c)
@@ -95,7 +95,9 @@ inline ref::RMap makeMap(const std::vector<int>& c)
 	case 3: m.sources = { { "a", 0 } }; break;
 	case 4: m.sources = { { "", 0 }, { "well0001", 5 }, { "", 0 } }; break;
 	case 5: m.sources = { { "a", 5 }, { "b2", 0 }, { "", 0 } }; break;
-	default: m.sources = { { "well0000", 0xFFFFFFFFu }, { "12345678", 1 }, { "x", 2 }, { "", 0 }, { "well0002", 7 } }; break;
+	case 6: m.sources = { { "well0000", 0xFFFFFFFFu }, { "12345678", 1 }, { "x", 2 }, { "", 0 }, { "well0002", 7 } }; break;
+	case 7: m.sources = { { "", 0 }, { "w1", 1 }, { "w2", 2 }, { "w3", 3 } }; break;                                       // an empty slot in front of several used ones
+	default: m.sources = { { "w1", 1 }, { "", 0 }, { "w2", 2 }, { "", 0 }, { "w3", 3 }, { "w4", 4 }, { "", 0 } }; break;    // empty slots in between and at the end
 	}
 	for (int i = 0; i < (c[7] == 0 ? 2 : c[7] == 1 ? 0 : 1); ++i) m.mappings.push_back({ uint16_t(i), uint16_t(100 + i), uint16_t(0xFFFF - i), uint16_t(7 * i) });
 	for (int i = 0; i < (c[8] == 0 ? 1 : c[8] == 1 ? 0 : 2); ++i) { std::array<uint8_t, 264> t; for (int k = 0; k < 264; ++k) t[k] = uint8_t(k * 3 + i * 17 + 1); m.terrain.push_back(t); }
